@@ -138,13 +138,17 @@ class Server:
 
 
 class Client:
-    """messages: list of (monotonic time, dict) in arrival order"""
+    """messages: list of (monotonic time, dict) in arrival order; per-id bookkeeping is kept by the reader thread so
+    that waiting costs nothing however much output a looping eval floods the socket with"""
 
     def __init__(self, port: int):
         self.sock = socket.create_connection(("127.0.0.1", port), timeout=10)
         self.sock.settimeout(None)
         self.messages = []
-        self.lock = threading.Lock()
+        self.by_id = {}
+        self.done = set()
+        self.cond = threading.Condition()
+        self.lock = self.cond
         self.bad = None
         self.closed = False
         self.t = threading.Thread(target=self._read, daemon=True)
@@ -154,13 +158,14 @@ class Client:
         buf = b""
         while True:
             try:
-                chunk = self.sock.recv(65536)
+                chunk = self.sock.recv(1 << 20)
             except OSError:
                 break
             if not chunk:
                 break
             buf += chunk
             i = 0
+            new = []
             while True:
                 try:
                     v, j = dec(buf, i)
@@ -170,28 +175,72 @@ class Client:
                     self.bad = str(e)
                     i = len(buf)
                     break
-                with self.lock:
-                    self.messages.append((time.monotonic(), v))
+                new.append(v)
                 i = j
             buf = buf[i:]
-        self.closed = True
+            if new:
+                now = time.monotonic()
+                with self.cond:
+                    for v in new:
+                        self.messages.append((now, v))
+                        if isinstance(v, dict):
+                            i_ = v.get("id")
+                            self.by_id.setdefault(i_, []).append(v)
+                            if "done" in (v.get("status") or []):
+                                self.done.add(i_)
+                    self.cond.notify_all()
+        with self.cond:
+            self.closed = True
+            self.cond.notify_all()
 
     def send(self, msg: dict):
         self.sock.sendall(enc(msg))
 
     def snapshot(self):
-        with self.lock:
+        with self.cond:
             return list(self.messages)
 
+    def msgs_of(self, i):
+        with self.cond:
+            return list(self.by_id.get(i, []))
+
+    def wait_done(self, ids, timeout: float):
+        """wait until every id in ids has a message with status done"""
+        ids = set(ids)
+        end = time.monotonic() + timeout
+        with self.cond:
+            while not ids <= self.done:
+                left = end - time.monotonic()
+                if left <= 0 or self.closed:
+                    return ids <= self.done
+                self.cond.wait(min(left, 0.5))
+            return True
+
+    def wait_msg(self, i, pred, timeout: float):
+        """wait until some message with id i satisfies pred"""
+        end = time.monotonic() + timeout
+        seen = 0
+        with self.cond:
+            while True:
+                lst = self.by_id.get(i, [])
+                for m in lst[seen:]:
+                    if pred(m):
+                        return True
+                seen = len(lst)
+                left = end - time.monotonic()
+                if left <= 0 or self.closed:
+                    return False
+                self.cond.wait(min(left, 0.5))
+
     def wait_for(self, pred, timeout: float):
-        """wait until pred(list of dicts) is true; -> bool"""
+        """wait until pred(list of dicts) is true (generic, costs a copy of the message list per poll); -> bool"""
         t0 = time.monotonic()
         while time.monotonic() - t0 < timeout:
             if pred([m for _, m in self.snapshot()]):
                 return True
             if self.closed:
                 return pred([m for _, m in self.snapshot()])
-            time.sleep(0.005)
+            time.sleep(0.02)
         return False
 
     def close(self):
